@@ -402,9 +402,9 @@ def main():
     # ---- 4. correspondence
     if obs is not None and any(b["kind"] == "proof" and b["name"].startswith("model:") for b in broken) is False:
         files = sorted(glob.glob(os.path.join(work, "cases_*.v")))
-        with CoqLock():
-            with concurrent.futures.ThreadPoolExecutor(max_workers=8) as ex:
-                corr_results = list(ex.map(lambda f: run_cases(f, cfg.get("cases_timeout", 900)), files))
+        # no lock: the case files are compiled in the work directory and only read this property's (already built) .vo files
+        with concurrent.futures.ThreadPoolExecutor(max_workers=8) as ex:
+            corr_results = list(ex.map(lambda f: run_cases(f, cfg.get("cases_timeout", 900)), files))
         for r in corr_results:
             if r["mismatch_ids"] is None:
                 broken.append({"kind": "correspondence", "name": "corr-eval:" + r["file"], "detail": r.get("error", "")})
